@@ -13,8 +13,11 @@ Definition fx_errs (cs : list (nat * option exc)) : list exc :=
 Definition fixture_raise (fx : fixture) : option exc :=
   match fx_fail fx with
   | None => None
-  | Some e => if fx_old fx then Some e
-              else Some (Multi (e :: fx_errs (fx_cleanups fx) ++ [Exc CSetupError None]))
+  | Some e => match fx_eval_raise fx with
+              | Some g => Some g      (* a detail that cannot be evaluated when it is gathered *)
+              | None => if fx_old fx then Some e
+                        else Some (Multi (e :: fx_errs (fx_cleanups fx) ++ [Exc CSetupError None]))
+              end
   end.
 
 Definition act_raise (a : act) : option exc :=
@@ -115,6 +118,7 @@ Definition entry_raise (e : entry) : option exc :=
   match e with
   | EUser _ body => acts_raise body
   | EFx fx => fx_cleanup_raise (fx_cleanups fx)
+  | EGather fx => fx_eval_raise fx
   | _ => None
   end.
 
@@ -154,7 +158,11 @@ Definition act_log (a : act) : list lsh :=
   | APatch a _ => [STouch a]
   | AFixture fx => STok (fx_tok fx) ::
                    match fx_fail fx with
-                   | Some _ => if fx_old fx then [] else fx_cleanup_log (fx_cleanups fx)
+                   | Some _ => if fx_old fx then []
+                               else match fx_eval_raise fx with
+                                    | Some _ => []      (* Fixture.setUp does not get to its cleanUp *)
+                                    | None => fx_cleanup_log (fx_cleanups fx)
+                                    end
                    | None => []
                    end
   | _ => []
@@ -227,7 +235,8 @@ Definition wf_fixture (fx : fixture) : bool :=
   | None => true
   end
   && forallb (fun c => match snd c with Some e => plain e && isinstance e CException | None => true end)
-             (fx_cleanups fx).
+             (fx_cleanups fx)
+  && match fx_bad fx with Some (_, g) => plain g | None => true end.
 Fixpoint wf_act (a : act) : bool :=
   match a with
   | ACleanup _ body => (fix go (l : list act) : bool := match l with [] => true | x :: r => wf_act x && go r end) body
@@ -256,7 +265,7 @@ Inductive devent :=
 
 (* a fixture's details as its getDetails() returns them, a mismatch's as its get_details() does
    (Model.nl_dict: a later assignment to the same name replaces the earlier) *)
-Definition fx_events (fx : fixture) : list devent := map (fun nl => DFx (fst nl) (snd nl)) (nl_dict (fx_details fx)).
+Definition fx_events (fx : fixture) : list devent := map (fun nl => DFx (fst nl) (snd nl)) (fx_good fx).
 Definition mm_events (mm : list (dname * nat)) : list devent := map (fun nl => DMis (fst nl) (snd nl)) (nl_dict mm).
 
 Definition act_events (a : act) : list devent :=
@@ -265,7 +274,11 @@ Definition act_events (a : act) : list devent :=
   | ASetCell loc v => [DSetCell loc v]
   | AExpect mm => mm_events mm ++ [DStack]
   | AAssert mm => mm_events mm
-  | AFixture fx => match fx_fail fx with Some _ => fx_events fx | None => [] end   (* gathered at once when set-up fails *)
+  | AFixture fx =>       (* gathered at once when set-up fails; if that raises, the traceback of the set-up error *)
+      match fx_fail fx with
+      | Some _ => fx_events fx ++ match fx_eval_raise fx with Some _ => [DTb] | None => [] end
+      | None => []
+      end
   | AOnExc h => [DOnExc h]
   | AExpectFailure r (Some e) => DReason (Some r) :: if isinstance e CFail then [DTb] else []
   | AExpectFailure r None => [DReason (Some r)]
@@ -278,7 +291,7 @@ Definition entry_events (e : entry) : list devent :=
   match e with
   | EUser _ body => acts_events body ++ exc_events (acts_raise body)
   | ERestore _ => []
-  | EGather fx => fx_events fx
+  | EGather fx => fx_events fx ++ exc_events (fx_eval_raise fx)
   | EFx fx => exc_events (fx_cleanup_raise (fx_cleanups fx))
   end.
 (* the test method, through the @unittest.expectedFailure wrapper if decorated *)
